@@ -1,5 +1,8 @@
 import GqlProofs.RoundTripMain
 import Props.C03Lexer
+import Props.C03Parser
+import GqlProofs.RoundTripWF2
+import GqlProofs.RoundTripWF3
 import Props.C08
 /-! # C08, byte level — printing an AST and parsing the BYTES back yields the same AST
 
@@ -136,6 +139,47 @@ theorem lex_printType (t : TypeRef) (hwf : Reader.WFType t) :
     rw [toUTF8_eq, render_typeI]; simp [printType]
   rw [e]
   exact ⟨lexAll_items _ (G_typeI t hwf [] trivial), lexToks_kv _ 0⟩
+
+/-! ## `parse_ok_WF`: the premise is exactly "the parser accepts"
+
+Full statement of the property's quantifier ("every document the parser accepts"): FALSE as such on the pinned tree —
+documents that went through the malformed-type-reference path of `parseType` (D-03b, known finding of C03, pinned by
+`TestParseTypeErrorBracket*`) carry nil / partial type references; they are outside `WFDocument` and the flag
+`typeRefMalformed` marks them.  With the flag down everything lexer + parser accept is well-formed. -/
+
+/-- **T1 `parse_ok_WF`**: whatever `parseBytes` accepts with the malformed-type flag down is a `WFDocument`
+(C03's `parser_sound_partial` gives a derivation in the grammar; the lexer model only produces well-formed NAME / INT /
+FLOAT tokens — for every input, D-03a included; a derivation over such tokens denotes a well-formed tree). -/
+theorem parse_ok_WF (src : Lexer.Bytes) (p : Parser.Parsed) (hp : parseBytes src = .ok p)
+    (hb : p.typeRefMalformed = false) : WFDocument p.doc := by
+  unfold parseBytes at hp
+  split at hp
+  · cases hp
+  · split at hp
+    · next p' hpt =>
+      cases hp
+      have hwf : Parser.typeRefWellFormed ((lexAll src).tokens.map LTok.toToken) = true := by
+        simp [Parser.typeRefWellFormed, Parser.typeRefMalformed, hpt, hb]
+      obtain ⟨toks, e, rest, hall, _, _, hd⟩ := Parser.parser_sound_partial _ _ hpt hwf
+      apply derivesDoc_wf hd
+      intro t ht
+      exact lexAll_tokWF src t (by rw [hall]; simp [ht])
+    · cases hp
+
+/-- **the property, closed**: for every source the lexer + parser accept (flag down), printing the resulting AST and
+parsing the printed bytes again succeeds and yields the same AST, locations aside; and printing is stable. -/
+theorem roundtrip_of_accepted (src : Lexer.Bytes) (p : Parser.Parsed) (hp : parseBytes src = .ok p)
+    (hb : p.typeRefMalformed = false) :
+    ∃ d', parseBytes (printBytes p.doc) = .ok ⟨d', false⟩ ∧ d'.stripLoc = p.doc.stripLoc ∧ print d' = print p.doc := by
+  obtain ⟨d', h1, h2⟩ := parse_print p.doc (parse_ok_WF src p hp hb)
+  exact ⟨d', h1, h2, print_eq_of_same_shape _ _ h2⟩
+
+/-- the flag hypothesis is needed: `query($a: ) {f}` is accepted (D-03b), the flag is up, and the variable definition
+has no type (so `WFVarDef` fails) -/
+example : (match parseBytes "query($a: ) {f}".toUTF8.data.toList with
+    | .ok p => p.typeRefMalformed &&
+        p.doc.defs.any (fun | .operation _ _ vars _ _ _ => vars.any (fun v => v.type.isNone) | _ => false)
+    | .error _ => false) = true := by decide +kernel
 
 /-! ## non-vacuity -/
 
